@@ -214,10 +214,17 @@ pub struct CmpObs {
     pub le: bool,
     pub gt: bool,
     pub ge: bool,
+    /// Ord::max(a, b) == b, Ord::min(a, b) == a (by ==), a.clamp(min(a,b), max(a,b)) == a
+    pub max_is_b: bool,
+    pub min_is_a: bool,
+    pub clamp_ok: bool,
 }
 
-pub fn cmp_obs<T: Ord>(a: &T, b: &T) -> CmpObs {
-    CmpObs { cmp: a.cmp(b), partial: a.partial_cmp(b), lt: a < b, le: a <= b, gt: a > b, ge: a >= b }
+pub fn cmp_obs<T: Ord + Clone>(a: &T, b: &T) -> CmpObs {
+    let mx = Ord::max(a.clone(), b.clone());
+    let mn = Ord::min(a.clone(), b.clone());
+    let cl = a.clone().clamp(mn.clone(), mx.clone());
+    CmpObs { cmp: a.cmp(b), partial: a.partial_cmp(b), lt: a < b, le: a <= b, gt: a > b, ge: a >= b, max_is_b: mx == *b, min_is_a: mn == *a, clamp_ok: cl == *a }
 }
 
 pub trait Sx: Codec + Send + Sync + 'static {
